@@ -84,6 +84,7 @@ def run(ck):
     ck.notes["rows_outside_the_table"] = t["skipped"]
     ck.notes["cli_args_outside_the_table"] = t["cskipped"]
     vlib.coq_check_properties(ck, "theories/C13/Properties.v")
+    vlib.coq_check_properties(ck, "theories/C13/ModuleLinesProperties.v")
     shipped_ok = vlib.coq_check_properties(ck, "theories/C13/Shipped.v")
     vlib.build_harness()
     fields = t["fields"]
